@@ -27,9 +27,11 @@ def L17_CodeGetByID : List String := ["storage.Get"]
 def L17_CreateConnectionCode : List String := ["codeQuotaMu.Lock", "defer codeQuotaMu.Unlock", "connCodeRepo.CountActiveByTargetClient", "@s.maxActiveCodesPerClient", "@s.maxActiveCodesPerClient", "generator.GenerateUnique", "connCodeRepo.GetByCode", "generateID", "connCodeRepo.Create"]
 def L17_ListByTargetClient : List String := ["listStore.GetList", "r.GetByID", "listStore.RemoveFromList"]
 def L17_NewSessionManager : List String := ["NewClientRegistry", "@config.MaxControlConnections", "NewTunnelRegistry"]
+def L17_RecordMappingUsage : List String := ["repos.LockPortMapping", "portMappingService.GetPortMapping", "portMappingService.UpdatePortMapping"]
 def L17_RegisterControlConnection : List String := ["clientRegistry.Register"]
 def L17_ReleaseClaim : List String := ["storage.Delete"]
 def L17_RevokeConnectionCode : List String := ["s.claimCode", "defer release", "connCodeRepo.GetByCode", "connCode.Revoke", "connCodeRepo.Update"]
+def L17_RevokeMapping : List String := ["repos.LockPortMapping", "portMappingService.GetPortMapping", "mapping.Revoke", "portMappingService.UpdatePortMapping"]
 def L17_TryClaim : List String := ["casStore.SetNX"]
 def L17_handleConnection : List String := ["acquireConnectionSlot", "sync.OnceFunc", "@h.releaseConnectionSlot", "@slotOwnedByTunnel", "@slotOwnedByTunnel", "releaseSlot", "adapter.PrepareConnection", "client.CheckMappingQuota", "client.DialTunnel", "tunnel.NewTunnel", "releaseSlot", "tunnelManager.RegisterTunnel", "tun.Start", "@slotOwnedByTunnel"]
 end Skel
